@@ -335,6 +335,18 @@ def _sample2(spec, ctx):
         return
     e = model.trees[0].edges[0]
     _rosenblatt2(ctx, model, df, out, log, e, where)
+    # the same holds for the model rebuilt from its own description (a fitted vine however it was obtained)
+    from copulas.multivariate import VineCopula
+    okr, rebuilt = ctx.call(lambda: VineCopula.from_dict(model.to_dict()))
+    if okr:
+        rebuilt.set_random_state(int(rng.integers(1 << 30)))
+        with interpose.record_random(vine_mod) as log2:
+            ok2, out2 = ctx.call(rebuilt.sample, 150)
+        if ok2 and list(out2.columns) == ['a', 'b'] and len(out2) == 150:
+            _rosenblatt2(ctx, rebuilt, df, out2, log2, rebuilt.trees[0].edges[0], dict(where, model='rebuilt from to_dict()'))
+        else:
+            ctx.violation('sample.call', 'C17:rebuilt-vine-sample-' + (exc_mech(out2) if not ok2 else 'schema'),
+                          dict(exc_detail(out2) if not ok2 else {}, **where))
     tau_edge = float(arch.Arch(FAM[e.name.value], e.theta).tau())
     # the sampler clips conditional uniforms at 0.99 (documented in DESIGN.md section 5): allow that mass
     eps = stats.dkw_eps(n) + 0.011
